@@ -15,9 +15,9 @@ from .lib import HarnessError
 LEVEL = "proof"
 META = {
     "category": "proof",
-    "text": "Coq compiler-correctness theorem (simulation, unbounded) for a fragment of the language made explicit by a boolean predicate: for every program of the fragment, all fuel, the model code generator (mirroring compile.go construct by construct with the real opcodes) followed by the model stack machine (mirroring interp.go) observes exactly what a reference big-step evaluator over NAMES written from doc/spec.md observes: effect trace with argument values, final globals, outcome and failing operation. Tied to /repo on every run by (a) a lock-step control-flow comparison of the real compiler's bytecode with the model's, (b) the model machine executing the real bytecode against the real machine (observables and ExecutionSteps), (c) the reference evaluator against the real pipeline on generated programs covering the whole language x 16 option combinations.",
-    "note": "Trusted: Coq kernel + vm_compute; Ref.v is my reading of spec.md; the built-in library is an oracle shared by both sides (its semantics are C10-C13); positions identify operations; the grammar-based generator's coverage (printed in the evidence). Proved fragment = in_fragment (see coq/C01/Properties.v); constructs outside it are covered by ties (b),(c) only.",
-    "technique": "Coq simulation proof (compiler correctness) + translation-validation style CFG comparison + differential execution (vm_compute)",
+    "text": "Coq compiler-correctness theorem by simulation (unbounded: all programs of an explicit boolean fragment, all fuel): the model code generator (Compile.v: slot assignment + code generation mirroring resolve.go / compile.go construct by construct, with the real opcodes, operands and source positions) followed by the model stack machine (VM.v: small-step model of interp.go with frames, iterator stack, cells) observes exactly what a reference big-step evaluator over NAMES written from doc/spec.md (Ref.v) observes: effect trace with rendered argument values, final heap and globals, outcome and position of the failing operation. Fragment: all expressions except lambda, comprehensions and * / ** call arguments; all statements except load and field assignment; defs with every kind of parameter, not nested and without captured variables. The FULL statement is refuted for the code as it is (codegen_correct_refuted: a comprehension re-evaluated in one activation sees stale variables), replayed on the real pipeline and recorded as known finding. The models are tied to /repo on every run: (a) lock-step control-flow comparison of the real compiler's bytecode (hook dump) with Compile.v's, insensitive to block layout; (b) VM.v executing the REAL bytecode against the real machine (trace, globals, outcome, failing position, ExecutionSteps); (c) Ref.v against the real pipeline on a hand-written corpus of the classic miscompilation patterns plus grammar-generated programs over the whole language x 16 option combinations; (d) Compile.v + VM.v end to end against the real pipeline.",
+    "note": "Trusted: Coq kernel + vm_compute; Ref.v is my reading of spec.md (comprehension variables are fresh per evaluation of the comprehension, closures capture cells); the built-in library (operators, built-in functions, argument binding) is an oracle shared by both sides of the theorem and modelled for execution in Values.v -- its own semantics are C10-C13; the theorem holds for any behaviour of those primitives; positions identify operations, messages are not compared; coverage of the generator is printed in the evidence. Outside the proved fragment (comprehensions, closures, */** arguments, load) the claim rests on ties (a)-(d) only.",
+    "technique": "Coq simulation proof (compiler correctness) + refutation witness by vm_compute + translation-validation style CFG comparison + differential execution",
 }
 
 HEADER = ("From Coq Require Import ZArith String List Bool.\n"
@@ -130,7 +130,7 @@ class Conv:
                     cls.append("(CFor %s %s %s)" % (self.target(c["vars"]), self.expr(c["x"]), cpos(c["for"])))
                 else:
                     cls.append("(CIf %s)" % self.expr(c["cond"]))
-            return "(EComp %s %s %s %s %s)" % ("true" if e["curly"] else "false", body, bodyv, cp, clist(cls))
+            return "(EComp %s %s %s %s %s [])" % ("true" if e["curly"] else "false", body, bodyv, cp, clist(cls))
         return '(EUnsup "%s")' % k
 
     def params(self, ps):
@@ -361,6 +361,26 @@ def coq_eval(ctx, name, cases, want):
     return res
 
 
+def comp_reevaluated(ast):
+    """Is there a comprehension lexically inside a loop or another comprehension?"""
+    def walk(n, inloop):
+        if isinstance(n, list):
+            return any(walk(x, inloop) for x in n)
+        if not isinstance(n, dict):
+            return False
+        k = n.get("k")
+        if k == "Comprehension":
+            if inloop:
+                return True
+            return any(walk(v, True) for v in n.values())
+        if k in ("ForStmt", "WhileStmt"):
+            return walk(n.get("x"), inloop) or walk(n.get("cond"), inloop) or walk(n.get("body"), True)
+        if k in ("DefStmt", "LambdaExpr"):
+            return walk(n.get("params"), inloop) or walk(n.get("body"), False)
+        return any(walk(v, inloop) for v in n.values())
+    return walk(ast, False)
+
+
 def classify(c):
     """Which comparisons apply to one harness object."""
     if c.get("static_error") or c.get("ast") is None:
@@ -399,10 +419,18 @@ def shard_eval(ctx, tag, items, want, per=40, workers=8):
 def run(ctx):
     ctx.proofs()
     hx = ctx.go_build("c01")
-    n = 100 if ctx.quick() else 3000
-    corpus = ctx.jsonl([hx, "run"], timeout=300, input=corpus_lines())
-    cases = corpus + ctx.jsonl([hx, "gen", "-seed", str(ctx.seed), "-n", str(n), "-frag", "50"], timeout=600)
-    ctx.log("harness produced %d programs (%d from the hand-written corpus)" % (len(cases), len(corpus)))
+    n = 70 if ctx.quick() else 1500
+    if getattr(ctx, "replay_path", None):
+        # re-run the program(s) recorded in a replay file instead of generating
+        rp = json.load(open(ctx.replay_path))
+        rr = rp.get("replay", rp)
+        line = json.dumps({"id": 1, "src": rr["src"], "opts": rr["opts"], "features": rr.get("features") or [], "fragment": False}) + "\n"
+        corpus = ctx.jsonl([hx, "run"], timeout=300, input=line)
+        cases = corpus
+    else:
+        corpus = ctx.jsonl([hx, "run"], timeout=300, input=corpus_lines())
+        cases = corpus + ctx.jsonl([hx, "gen", "-seed", str(ctx.seed), "-n", str(n), "-frag", "50"], timeout=600)
+    ctx.log("harness produced %d programs (%d from the hand-written corpus / replay)" % (len(cases), len(corpus)))
     dist = {"static-error": 0, "panic": 0, "timeout": 0, "run": 0, "untranslatable": 0}
     feats = {}
     items = []
@@ -437,8 +465,19 @@ def run(ctx):
         if row[0].startswith("unsup:"):
             unsup_tags[row[0][6:]] = unsup_tags.get(row[0][6:], 0) + 1
     # (c) the real pipeline disagrees with the reference semantics: a failing program
+    rowof = {id(c): row for (c, d), row in zip(items, rows)}
     for c, r in bad["ref"]:
-        ctx.finding("pipeline-vs-reference:" + r, "real pipeline and reference evaluator disagree (%s) on a generated program" % r,
+        corp = [f[7:] for f in (c.get("features") or []) if f.startswith("corpus:")]
+        if corp:
+            key = "corpus:" + corp[0]
+        elif comp_reevaluated(c["ast"]) and rowof[id(c)][1] == "ok":
+            # the model of the pipeline (Compile.v + VM.v) reproduces the real behaviour, the reference
+            # evaluator does not, and a comprehension can be evaluated twice in one activation: the
+            # divergence proved in Properties.codegen_correct_refuted
+            key = "generated:comprehension-reevaluated"
+        else:
+            key = "pipeline-vs-reference:" + r
+        ctx.finding(key, "real pipeline and reference evaluator disagree (%s)" % r,
                     {"src": c["src"], "opts": c["opts"], "real": c["run"], "features": c.get("features")})
     refbad = set(id(c) for c, _ in bad["ref"])
     for w, name in (("code", "C01.Compile (bytecode of the real compiler vs model code generator)"),
@@ -456,7 +495,8 @@ def run(ctx):
         "samples": [{"src": c["src"], "opts": c["opts"], "results": row} for (c, d), row in list(zip(items, rows))[:3]],
     }
     return ctx.finish(LEVEL, cov, assumptions=[
-        "Ref.v is a reading of doc/spec.md; comprehension variables are per-evaluation, closures capture cells",
+        "Ref.v is a reading of doc/spec.md; comprehension variables are fresh per evaluation of the comprehension, closures capture cells",
+        "programs on which Ref.v leaves its modelled library (float division, string formatting, a few built-ins / methods) are counted under reference_unsupported, never compared silently",
         "built-in functions and operators on values are a shared oracle (Values.v), compared with the real ones only through ties (b) and (c)",
         "source positions identify operations; error messages are not compared",
     ])
@@ -720,6 +760,22 @@ def f():
 trace(a, bb, f())
 c = a + 1
 trace(c)
+"""),
+    ("comprehension-variable-stale-on-reevaluation", ALLOFF, """
+def f():
+    r = []
+    for i in range(2):
+        r.append([y for x in [1] for y in ([z] if i else [0]) for z in [5]])
+    return r
+trace(f())
+"""),
+    ("comprehension-closure-cell-shared-across-evaluations", ALLOFF, """
+def f():
+    r = []
+    for i in range(2):
+        r.append([lambda: x for x in [i]])
+    return [g[0]() for g in r]
+trace(f())
 """),
     ("dict-displays-and-comprehensions", ALLOFF, """
 def f():
